@@ -19,7 +19,7 @@ import random
 
 from . import common
 
-MODULES = ["CoapVerif.Props.C11", "CoapVerif.Findings.C11"]
+MODULES = ["CoapVerif.Props.C11", "CoapVerif.Findings.C11", "CoapVerif.Props.C11NStart", "CoapVerif.Findings.C11NStart"]
 GENERATED = ["WaitShape.lean", "Dedup.lean"]
 
 
@@ -211,6 +211,16 @@ def framesize_family(rng=None):
         out.append("scn tcp@%d 16 0 0 pad:%d arrive:1:r settle sleep:1000 settle" % (c, n))
         out.append("scn tcp@%d 16 0 0 arrive:1:g1 pad:%d resp:1 sleep:31000 settle" % (c, n))
         out.append("scn tcp@%d 1 0 0 call:g1 pad:%d resp:1 sleep:100 pad:%d arrive:1:r pad:%d arrive:2:r sleep:31000 settle" % (c, n, n, n + c))
+    # one write with two frames, the read ends inside the HEADER (2 + token bytes) of the second: the complete first frame has been
+    # dispatched when the rest arrives and must not be dispatched again (`resp2`: the awaited response, then a message that belongs to
+    # nobody; `mon`: a message the request monitor drops, then a request)
+    cuts = [(c, d) for c in (16, 64) for d in (1, 2, 3, 4)]
+    if rng is not None:
+        cuts = [(rng.choice([16, 24, 32, 64, 100]), rng.choice([1, 2, 3, 4])) for _ in range(4)]
+    for c, d in cuts:
+        out.append("scn tcp@%d 16 0 0 call:g1 pad:%d resp2:1 settle" % (c, c - d))
+        out.append("scn tcp@%d 1 0 0 arrive:1:g1 pad:%d resp2:1 arrive:2:r settle" % (c, c - d))
+        out.append("scn tcp@%d 16 0 0 pad:%d mon:1:r arrive:2:r settle" % (c, c - d))
     return out
 
 
@@ -351,6 +361,71 @@ def monitor_family(rng=None):
     return out
 
 
+def nstart_family(rng=None):
+    """NSTART (RFC 7252 4.7; `udp@<n>`: at most n outstanding interactions, default 1) with requests of the application outstanding
+    on the connection while the peer sends a message of its own whose handler (or observation callback) issues a nested request:
+    the application's requests are non-confirmable (awaiting their response), confirmable and not yet acknowledged, or
+    confirmable, acknowledged and awaiting a separate response — as many of them as there are slots.  Then the answers of the
+    outstanding requests arrive *behind* the peer's message, then the answer of the nested request.  Whatever takes part in NSTART,
+    a handler that waits for a slot must not be the one the slot's release waits for: every call gets its answer.  The limiter is
+    unlimited (F11 would mask it).  Between the peer's request and the acknowledgement that frees the slot there are fewer messages
+    than the receive queue holds, exactly as many, or more (the socket reader then stands behind a full queue: F41, see
+    NSTART_FULL_QUEUE below)."""
+    out = []
+    combos = [(ns, q, ctx, inner) for ns in (1, 2) for q in (16, 1, 0) for ctx in ("non", "con", "acked") for inner in ("g", "n")]
+    if rng is not None:
+        combos = [(rng.choice([1, 1, 2, 3]), rng.choice([16, 2, 1, 0]), rng.choice(["non", "non", "con", "acked"]), rng.choice(["g", "g", "n", "w"]))
+                  for _ in range(6)]
+    for ns, q, ctx, inner in combos:
+        ids = [9, 8, 7][:ns]
+        pre = " ".join("call:%s%d" % ("n" if ctx == "non" else "g", k) for k in ids)
+        if ctx == "acked":
+            pre += " " + " ".join("ack:%d" % k for k in ids)
+        ans = " ".join(("resp:%d" if ctx == "con" else "sep:%d") % k for k in ids)
+        inner_ans = {"g": "resp:1", "n": "sep:1", "w": "ack:1"}[inner]
+        tr = "udp@%d" % ns
+        # the answers of the outstanding requests right behind the peer's request
+        out.append("scn %s %d 0 0 %s arrive:1:%s1 %s %s sleep:31000 settle" % (tr, q, pre, inner, ans, inner_ans))
+        # further requests of the peer in between — fewer than the queue holds, as many, more (small queues) — and behind
+        for between in ((min(q, 2), q + 1, q + 2) if rng is None else (rng.randint(0, min(q, 3)), q + rng.randint(1, 3))):
+            if between > 4:
+                continue
+            more = " ".join("arrive:%d:r" % (20 + i) for i in range(between))
+            out.append("scn %s %d 0 0 %s arrive:1:%s1 %s %s arrive:5:r %s sleep:31000 settle" % (tr, q, pre, inner, more, ans, inner_ans))
+        # the nested request comes from an observation's callback
+        if inner != "w":
+            out.append("scn %s %d 0 0 watch:1:%s5 resp:1 %s note:1 %s %s note:1 sleep:31000 settle" % (tr, q, inner, pre, ans, inner_ans.replace(":1", ":5")))
+    if rng is None:
+        for q in (16, 0):
+            out += [
+                # handlers only: every nested confirmable request waits for the slot of the one before it until that one is acknowledged
+                "scn udp@1 %d 0 0 arrive:1:g1 arrive:2:g2 ack:1 ack:2 sep:2 sep:1 sleep:31000 settle" % q,
+                "scn udp@1 %d 0 0 arrive:1:g1 ack:1 arrive:2:g2 ack:2 arrive:3:g3 resp:3 sep:1 sep:2 sleep:31000 settle" % q,
+                "scn udp@2 %d 0 0 arrive:1:g1 arrive:2:g2 arrive:3:g3 ack:2 resp:1 sep:2 resp:3 sleep:31000 settle" % q,
+                # a one-way confirmable write and a non-confirmable request outstanding
+                "scn udp@1 %d 0 0 call:n9 arrive:1:w1 sep:9 ack:1 sleep:31000 settle" % q,
+                "scn udp@1 %d 0 0 call:n9 call:w8 arrive:1:g1 ack:8 sep:9 resp:1 sleep:31000 settle" % q,
+                # a request that is never answered keeps no slot once it is acknowledged
+                "scn udp@1 %d 0 0 call:g9 ack:9 arrive:1:g1+g2 resp:1 resp:2 sleep:31000 settle" % q,
+            ]
+    return out
+
+
+# F41 (found here in round 10, repaired in /repo a2d1ac6): `prepareWriteMessage` waited for an NSTART slot
+# (`acquireOutstandingInteraction`) before any `TryToReplaceLoop`.  The slot it waits for is given back when the holder's acknowledgement
+# has been read by the socket reader — but the socket reader stood behind a full receive queue that only the waiting handler's loop
+# could drain: nobody read the acknowledgement (nor anything else) until the holder's request ran into its deadline.  Queue size 0: one
+# message between the peer's request and the acknowledgement is enough; queue size N: N + 1 (default NSTART 1, default queue 16: 17).
+# Now the wait hands the loop over first (`Generated.WaitShape`: precededByReplace, `Props.C11NStart.nstart_wait_never_keeps_a_queued_message`).
+# These lines (and the full-queue lines of nstart_family) keep watching it; a relapse is reported as C11:nested-stall:nstart
+# (model and implementation agree and the model's current loop sits in the NSTART wait).
+NSTART_FULL_QUEUE = ["scn udp@1 0 0 0 call:g9 arrive:1:g1 arrive:2:r ack:9 sep:9 resp:1 sleep:31000 settle",
+                     "scn udp@1 1 0 0 arrive:1:g1 arrive:2:g2 arrive:3:r arrive:4:r ack:1 sep:1 ack:2 sep:2 sleep:31000 settle",
+                     "scn udp@1 0 0 0 call:n9 call:w8 arrive:1:g1 sep:9 ack:8 resp:1 sleep:31000 settle",
+                     # the default queue of 16: 17 messages in between
+                     "scn udp@1 16 0 0 call:g9 arrive:1:g1 %s ack:9 sep:9 resp:1 sleep:31000 settle" % " ".join("arrive:%d:r" % (20 + i) for i in range(17))]
+
+
 # one discovery of a real udp.Server over a loopback socket each (real time, about 1.6 s per line): the receiver callback issues a
 # blocking request on the responder's connection; order of the responder's messages after it
 DISCOVERY = ["disc ack-d2-sep", "disc d2-ack-sep", "disc ack-sep-d2", "disc d2-pig"]
@@ -402,7 +477,7 @@ def corpus_lines():
 def gen_lines(ctx):
     rng = random.Random(ctx.seed * 7727 + 11)
     L = [(l, True) for l in corpus_lines() + FIXED + stale_family() + requeue_family() + callback_family() + framesize_family()
-         + empty_family() + midclash_family() + sametoken_family() + dedup_family() + monitor_family() + noteclash_family() + MIDLOCK_NON + DUPLOCK + DISCOVERY]
+         + empty_family() + midclash_family() + sametoken_family() + dedup_family() + monitor_family() + noteclash_family() + nstart_family() + NSTART_FULL_QUEUE + MIDLOCK_NON + DUPLOCK + DISCOVERY]
     if ctx.tier == "thorough":
         L += [(l, True) for l in DUPLOCK_THOROUGH]
     for _ in range(20 if ctx.tier == "thorough" else 2):
@@ -413,6 +488,8 @@ def gen_lines(ctx):
         L += [(l, True) for l in empty_family(rng)]
     for _ in range(40 if ctx.tier == "thorough" else 6):
         L += [(l, True) for l in stale_family(rng)]
+    for _ in range(40 if ctx.tier == "thorough" else 4):
+        L += [(l, True) for l in nstart_family(rng)]
     for _ in range(30 if ctx.tier == "thorough" else 3):
         L += [(l, True) for l in requeue_family(rng) + callback_family(rng) + framesize_family(rng)]
     for _ in range(10000 if ctx.tier == "thorough" else 1500):
